@@ -170,7 +170,7 @@ func (x *Exec) staticCall(st *State, fr *Frame, ci *ssa.Call, callee *ssa.Functi
 					env.vars[n] = v
 				}
 			}
-			env.lookup = x.localResolver(st, fr, ci.Block())
+			env.lookup = x.localResolverAt(st, fr, ci.Block(), ci)
 			for i, a := range args {
 				env.vars[fmt.Sprintf("a%d", i)] = a
 			}
@@ -368,7 +368,7 @@ func (x *Exec) callModLocs(st *State, fr *Frame, ci *ssa.Call, cm *Clause) []mod
 			env.vars[k] = v
 		}
 	}
-	env.lookup = x.localResolver(st, fr, ci.Block())
+	env.lookup = x.localResolverAt(st, fr, ci.Block(), ci)
 	// the actual arguments of the call (receiver first) are a0, a1, ...
 	for i, a := range ci.Call.Args {
 		env.vars[fmt.Sprintf("a%d", i)] = fr.get(x, a)
